@@ -321,7 +321,7 @@ func c09Loop(c *Ctx) {
 		c.Unresolved("hedgepolicy.executor.Apply", "not resolved")
 		return
 	}
-	ee := c.NewExecEval(info, EvalConfig{MaxVisits: 4, MaxPaths: 200000})
+	ee := c.NewExecEval(info, EvalConfig{MaxVisits: visits(4), MaxPaths: 400000})
 	paths, innerFn, exec := ee.RunApply()
 	ev, ts := ee.Ev, ee.Ev.TS
 	apply := info.Slots["Apply"]
